@@ -496,7 +496,10 @@ def set_inventory(obj, data, rng, where="", sync=True):
     inv = os.path.join(d, "inventory.json")
     old = None
     try:
-        old = open(inv, "rb").read()
+        if stat.S_ISREG(os.lstat(inv).st_mode):
+            old = open(inv, "rb").read()
+        else:
+            rm_tree(inv)          # a FIFO / link / directory left there by an earlier edit: opening it could block for ever
     except OSError:
         pass
     write_file(inv, data)
@@ -582,6 +585,7 @@ def fam_bytes(rng, obj):
         return "bytes/inventory/" + kind
     if target == "sidecar":
         cands = [os.path.join(dp, n) for dp, _, fs in os.walk(obj) for n in fs if n.startswith("inventory.json.")]
+        cands = [p for p in cands if stat.S_ISREG(os.lstat(p).st_mode)]      # an earlier edit of a combo may have put a FIFO there
         if cands:
             p = rng.choice(cands)
             old = open(p, "rb").read().decode("utf-8", "replace").split()
